@@ -140,6 +140,67 @@ def build_universe(ch):
     return st
 
 
+def build_many(ch):
+    """beyond the small scope: the slab decks of C01 (12 ... 130 planes) with every 3rd / every plane flagged"""
+    from . import c01
+    st = c01.b_slabs(ch)
+    every = ch.choose('flag-every', [3, 1, 10], free=True)
+    kinds = ch.choose('flag-kinds', ['*', '+', 'alternating'], free=True)
+    st.flagged = {}
+    surfs = []
+    for i, card in enumerate(st.surfs):
+        if i % every == 0:
+            fl = kinds if kinds != 'alternating' else '*+'[(i // every) % 2]
+            st.flagged[i] = fl
+            card = fl + card
+        surfs.append(card)
+    st.surfs = surfs
+    st.macro = ''
+    st.unused_flags = {}
+    return st
+
+
+def check_many(st):
+    r = env.run(st.deck_text, st.options)
+    if not r.ok:
+        return verdict(False, st, cls={'kind': 'exception', 'exc': r.exc_type}, msg='conversion failed: ' + r.brief(),
+                       out='err:' + r.exc_type)
+    t4 = t4read.parse(r.t4)
+    cls, msg = oracle.structural_cls(t4, st.options)
+    if cls:
+        return verdict(False, st, cls=cls, msg=msg, out=sha(r.body))
+    xs = st.slab_x
+    n = len(xs) - 1
+
+    def live(k):
+        return 0 <= k < n and st.slab_imps[st.slab_owner[k]] != 0
+    want = {}
+    for i, fl in st.flagged.items():
+        if live(i - 1) or live(i):
+            want[round(xs[i], 9)] = KIND[fl]
+    got = {}
+    bad = []
+    for kind, sid in t4.bcs:
+        k2, p, tr = t4.surfs[sid]
+        if k2 != 'PLANEX' and not (k2 == 'PLANE' and abs(p[1]) + abs(p[2]) < 1e-12):
+            bad.append('entry %s %s is not a plane x = const' % (kind, sid)); continue
+        x = p[0] if k2 == 'PLANEX' else -p[3] / p[0]
+        x = round(x, 9)
+        if x in got:
+            bad.append('two entries on the plane x = %s' % x)
+        got[x] = kind
+    for x, kind in want.items():
+        if got.get(x) != kind:
+            bad.append('flagged plane x = %s: entry %s, expected %s' % (x, got.get(x), kind))
+    for x in got:
+        if x not in want:
+            bad.append('entry on x = %s which is not a flagged plane bounding a converted cell' % x)
+    if bad:
+        return verdict(False, st, cls={'kind': 'boundary', 'options': 'many'}, msg='\n'.join(bad[:8]) + '\n' + st.deck_text[:800],
+                       out=sha(r.body))
+    return verdict(True, st, out=sha(r.body), nontrivial=bool(want), stats={'flags': len(want)})
+
+
 REF = {21: refsem.mcnp_surface('px', [0.5]), 20: refsem.mcnp_surface('px', [3.0]), 50: refsem.mcnp_surface('so', [8.0]),
        55: refsem.mcnp_surface('k/z', [0.0, 6.0, -1.0, 0.25])}
 
@@ -148,12 +209,15 @@ def scenarios(tier):
     return [Scn('flags', build, 2 if tier == 'quick' else 3, 3,
                 'flags on the two bounding surfaces x copies x kinds x de-duplication: complete product; the other '
                 'choices (further flagged surfaces, TR, macrobodies) deviation-bounded'),
+            Scn('many', build_many, 1, 2, 'decks of 12 ... 130 planes with every 3rd / every / every 10th plane flagged'),
             Scn('universe', build_universe, None, None,
                 'flagged plane inside a universe filled into two or three containers by transformations that leave '
                 'the plane in place: complete product')]
 
 
 def check_state(scn, st, corrupt=False):
+    if hasattr(st, 'slab_x'):
+        return check_many(st)
     r = env.run(st.deck_text, st.options)
     if st.macro:
         if r.ok:
